@@ -32,7 +32,9 @@ RULE = ("kinds: single object, ComputableList of 2-4 objects of mixed types, man
         "non-trivial = at least one ensemble axis or non-empty metadata; distinct = distinct case dict")
 CLAUSES = ["type", "array-values", "dtype", "axes-count", "ensemble-axes-metadata", "base-axes-metadata", "metadata",
            "list-length", "store-kind", "temp-removed"]
-QUICK = dict(n=200, time=40)
+ASSUMPTIONS = ["metadata is restricted to what JSON carries: str keys; None/bool/int/float (incl. nan, inf, -0.0)/str/list/tuple/dict values; numpy scalars and arrays are compared after conversion to Python",
+               "from_zarr always returns lazy objects: laziness itself is not compared"]
+QUICK = dict(n=300, time=35)
 THOROUGH = dict(n=12000, time=240, shards=16)
 
 
